@@ -309,6 +309,57 @@ fn gcc_rejections(rep: &mut Report, rng: &mut Rng) {
     }
 }
 
+/// The producer thread dies for a reason other than a failed send: (a) nothing to read below the
+/// given path (the "No input files found" assert), (b) an unreadable `--path-mapping` file, opened
+/// after every item was sent. `main` must notice at the join and exit non-zero; the event log must
+/// be a run of the model with a `prodDies` step after the last send.
+fn producer_deaths(rep: &mut Report, rng: &mut Rng, reqs: &mut Vec<String>, ctx: &mut Vec<serde_json::Value>) {
+    let n = rep.budget(6, 6);
+    for c in 0..n {
+        let dir = rep.workdir.join(format!("proddeath{}", c));
+        let _ = std::fs::remove_dir_all(&dir);
+        let threads = *rng.pick(&[1usize, 2, 3]);
+        let empty = c % 2 == 0;
+        let k = rng.range(1, 7) as usize;
+        let inputs = if empty { vec![] } else { gen_inputs(rng, k) };
+        write_inputs(&dir, &inputs);
+        std::fs::create_dir_all(dir.join("nothing-here")).unwrap();
+        let (args, extra): (Vec<String>, Vec<String>) = if empty {
+            (vec!["nothing-here".into()], vec!["-t".into(), "lcov".into()])
+        } else {
+            (inputs.iter().map(|i| i.name.clone()).collect(),
+             vec!["-t".into(), "lcov".into(), "--path-mapping".into(), "no-such-mapping.json".into()])
+        };
+        let cfg = RunCfg { dir: &dir, args: args.clone(), threads, perturb: Some(rng.next() % 100000), fault: None,
+            limit: Duration::from_secs(LIMIT_S), extra };
+        let out = run_grcov(&cfg);
+        let case = json!({"op": "producer-death", "kind": if empty { "no-input-files" } else { "path-mapping-unreadable" },
+            "threads": threads, "args": args,
+            "inputs": inputs.iter().map(|i| json!({"name": i.name, "hex": hex(&i.bytes)})).collect::<Vec<_>>()});
+        rep.case(&format!("producer-death {} {} {:?}", empty, threads, args), true);
+        rep.count(if empty { "producer_death.no_input_files" } else { "producer_death.after_all_sends" });
+        match out.exit {
+            None => {
+                rep.fail("oracle", None, format!("grcov did not terminate within {} s after its producer thread panicked", LIMIT_S), case);
+                continue;
+            }
+            Some(0) => {
+                rep.fail("oracle", None, "the producer thread panicked but grcov exited with status 0".into(), case);
+                continue;
+            }
+            Some(_) => {}
+        }
+        match log_to_request_ext(&out, threads, false, inputs.len(), &[], true) {
+            Ok(req) => {
+                reqs.push(req);
+                ctx.push(json!({"case": case, "exit": out.exit,
+                    "log": out.log.iter().map(|e| format!("{} {} {}", e.0, e.1, e.2)).collect::<Vec<_>>()}));
+            }
+            Err(e) => rep.fail("oracle", None, format!("event log is inconsistent: {}", e), case),
+        }
+    }
+}
+
 pub fn run(rep: &mut Report) {
     rep.rule = "input sets of 2-12 .info/.xml files; subsets of 0-3 inputs kill their worker and 0-2 are rejected \
                 by the hook, 0-2 more are damaged so that the real parser rejects them; a second stream feeds gcc-compiled \
@@ -320,6 +371,7 @@ pub fn run(rep: &mut Report) {
     let mut reqs = vec![];
     let mut ctx = vec![];
     gcc_rejections(rep, &mut rng.fork());
+    producer_deaths(rep, &mut rng.fork(), &mut reqs, &mut ctx);
     // fixed scenarios: all workers die early, many items remain (witness of the repaired deadlock)
     for (t, (threads, k)) in [(1usize, 5usize), (1, 9), (2, 12), (3, 14)].iter().enumerate() {
         let inputs = gen_inputs(&mut rng, *k);
